@@ -111,36 +111,36 @@ def run(chk):
                               "-protos", "schnorr,okamoto"])]
     else:
         mcs = [("SigmaMC", c) for c in ("SigmaMC_schnorr_q5.cfg", "SigmaMC_schnorr_q7.cfg", "SigmaMC_schnorr_q11.cfg", "SigmaMC_okamoto_q3.cfg",
-                                        "SigmaMC_okamoto_q5.cfg", "SigmaMC_elcomop_q3.cfg", "SigmaMC_elcomop_q5.cfg", "SigmaMC_and2_q3.cfg",
-                                        "SigmaMC_elog_q3.cfg", "SigmaMC_batch2_q5.cfg", "SigmaMC_batch2_q7.cfg", "SigmaMC_batch3_q5.cfg")]
-        mcs += [("SigmaOrMC", "SigmaOrMC_schnorr_q3.cfg"), ("SigmaOrMC", "SigmaOrMC_okamoto_q3.cfg")]
-        mcs += [("SigmaNIMC", c) for c in ("SigmaNIMC_fs_schnorr_q3.cfg", "SigmaNIMC_fs_schnorr_q5.cfg", "SigmaNIMC_fs_okamoto_q3.cfg", "SigmaNIMC_fs_okamoto_q5.cfg", "SigmaNIMC_zk_schnorr_q3.cfg",
-                                          "SigmaNIMC_fs_elcomop_q3.cfg", "SigmaNIMC_zk_schnorr_q5.cfg", "SigmaNIMC_fischlin_schnorr_q3.cfg",
-                                          "SigmaNIMC_randfischlin_schnorr_q3.cfg", "SigmaNIMC_fischlin_okamoto_q3.cfg",
-                                          "SigmaNIMC_fischlin_schnorr_q5.cfg", "SigmaNIMC_randfischlin_schnorr_q5.cfg")]
+                                        "SigmaMC_elcomop_q3.cfg", "SigmaMC_and2_q3.cfg", "SigmaMC_elog_q3.cfg", "SigmaMC_batch2_q5.cfg",
+                                        "SigmaMC_batch2_q7.cfg", "SigmaMC_batch3_q5.cfg")]
+        mcs += [("SigmaOrMC", "SigmaOrMC_schnorr_q3.cfg")]
+        mcs += [("SigmaNIMC", c) for c in ("SigmaNIMC_fs_schnorr_q3.cfg", "SigmaNIMC_fs_schnorr_q5.cfg", "SigmaNIMC_fs_okamoto_q3.cfg",
+                                          "SigmaNIMC_fs_elcomop_q3.cfg", "SigmaNIMC_zk_schnorr_q3.cfg", "SigmaNIMC_zk_schnorr_q5.cfg",
+                                          "SigmaNIMC_fischlin_schnorr_q3.cfg", "SigmaNIMC_randfischlin_schnorr_q3.cfg")]
+        # larger scopes that also hold but are not part of a tier (minutes each): SigmaMC_okamoto_q5 (3.3M states),
+        # SigmaMC_elcomop_q5 (3.5M), SigmaOrMC_okamoto_q3 (6.1M), SigmaNIMC_fs_okamoto_q5, SigmaNIMC_*fischlin_schnorr_q5, SigmaNIMC_fischlin_okamoto_q3
         allp = "schnorr,schnorrh,okamoto,okamoto3,elcomop,batch,batch3"
         jobs = [("proto-exh-q11", ["-mode", "proto", "-q", "11", "-exh", "-protos", "schnorr", "-n", "100"]),
                 ("proto-exh-q5", ["-mode", "proto", "-q", "5", "-exh", "-protos", "schnorr,schnorrh,okamoto,batch", "-n", "100"]),
                 ("proto-exh-q5-elcomop", ["-mode", "proto", "-q", "5", "-exh", "-protos", "elcomop", "-n", "100"]),
                 ("proto-exh-q3", ["-mode", "proto", "-q", "3", "-exh", "-protos", "okamoto,elcomop,batch", "-n", "100"]),
-                ("proto-q11", ["-mode", "proto", "-q", "11", "-n", "1500", "-protos", allp]),
-                ("proto-q251", ["-mode", "proto", "-q", "251", "-n", "1000", "-protos", allp]),
-                ("proto-q45971", ["-mode", "proto", "-q", "45971", "-n", "1000", "-protos", allp]),
-                ("compose-q11", ["-mode", "compose", "-q", "11", "-n", "120"]),
-                ("compose-q251", ["-mode", "compose", "-q", "251", "-n", "120"]),
-                ("compose-q45971", ["-mode", "compose", "-q", "45971", "-n", "120"]),
-                ("ni-q11-fs", ["-mode", "ni", "-q", "11", "-comps", "fs", "-proofs", "12", "-bits", "0", "-maxmut", "0", "-interactive"]),
-                ("ni-q11-fischlin", ["-mode", "ni", "-q", "11", "-comps", "fischlin,randfischlin", "-proofs", "3", "-bits", "2", "-maxmut", "400"]),
-                ("ni-q251", ["-mode", "ni", "-q", "251", "-comps", "fs,fischlin,randfischlin", "-proofs", "3", "-bits", "2", "-maxmut", "300", "-interactive"]),
-                ("ni-q45971", ["-mode", "ni", "-q", "45971", "-comps", "fs,fischlin,randfischlin", "-proofs", "3", "-bits", "2", "-maxmut", "300", "-interactive"]),
-                ("nitok-q251", ["-mode", "nitok", "-q", "251", "-comps", "fs,fischlin,randfischlin", "-proofs", "2", "-maxmut", "300", "-bits", "2"]),
-                ("nitok-q45971", ["-mode", "nitok", "-q", "45971", "-comps", "fs", "-proofs", "4", "-maxmut", "0", "-bits", "4"])]
-        for g, pr in (("k256", "schnorr,okamoto,batch,elcomop,elog,and,or"), ("p256", "schnorr,okamoto,batch,elcomop,elog,and,or"),
-                      ("bls12381g1", "schnorr,okamoto,batch,elcomop,elog,and,or")):
-            jobs.append(("prod-%s-fs" % g, ["-mode", "prod", "-group", g, "-comps", "fs", "-proofs", "2", "-bits", "0", "-maxmut", "0",
-                                             "-protos", pr, "-interactive"]))
+                ("proto-q11", ["-mode", "proto", "-q", "11", "-n", "300", "-protos", allp]),
+                ("proto-q251", ["-mode", "proto", "-q", "251", "-n", "200", "-protos", allp]),
+                ("proto-q45971", ["-mode", "proto", "-q", "45971", "-n", "200", "-protos", allp]),
+                ("compose-q11", ["-mode", "compose", "-q", "11", "-n", "40"]),
+                ("compose-q251", ["-mode", "compose", "-q", "251", "-n", "40"]),
+                ("compose-q45971", ["-mode", "compose", "-q", "45971", "-n", "40"]),
+                ("ni-q11-fs", ["-mode", "ni", "-q", "11", "-comps", "fs", "-proofs", "4", "-bits", "0", "-maxmut", "0", "-interactive"]),
+                ("ni-q11-fischlin", ["-mode", "ni", "-q", "11", "-comps", "fischlin,randfischlin", "-proofs", "2", "-bits", "2", "-maxmut", "200"]),
+                ("ni-q251", ["-mode", "ni", "-q", "251", "-comps", "fs,fischlin,randfischlin", "-proofs", "2", "-bits", "2", "-maxmut", "150", "-interactive"]),
+                ("ni-q45971", ["-mode", "ni", "-q", "45971", "-comps", "fs,fischlin,randfischlin", "-proofs", "2", "-bits", "2", "-maxmut", "150", "-interactive"]),
+                ("nitok-q251", ["-mode", "nitok", "-q", "251", "-comps", "fs,fischlin,randfischlin", "-proofs", "1", "-maxmut", "200", "-bits", "2"]),
+                ("nitok-q45971", ["-mode", "nitok", "-q", "45971", "-comps", "fs", "-proofs", "3", "-maxmut", "0", "-bits", "4"])]
+        for g in ("k256", "p256", "bls12381g1"):
+            jobs.append(("prod-%s-fs" % g, ["-mode", "prod", "-group", g, "-comps", "fs", "-proofs", "2", "-bits", "16", "-maxmut", "0",
+                                             "-protos", "schnorr,okamoto,batch,elcomop,elog,and,or", "-interactive"]))
             jobs.append(("prod-%s-fischlin" % g, ["-mode", "prod", "-group", g, "-comps", "fischlin,randfischlin", "-proofs", "1", "-bits", "1",
-                                                   "-maxmut", "150", "-protos", "schnorr,okamoto,batch"]))
+                                                   "-maxmut", "120", "-protos", "schnorr,okamoto,batch"]))
 
     only = [t for t in os.environ.get("C08_ONLY", "").split(",") if t]   # development aid: restrict to matching job names ("mc" = model checking)
     if only:
@@ -149,7 +149,7 @@ def run(chk):
             mcs = []
 
     def mc(mod, cfg):
-        return lambda: vlib.tlc(SPEC, mod, cfg, workers=2 if quick else 4, timeout=3000)
+        return lambda: vlib.tlc(SPEC, mod, cfg, workers=2 if quick else 3, timeout=3000)
     tasks = [("mc:" + c, mc(m, c)) for m, c in mcs]
 
     stats = {"lines": 0, "by_action": {}, "accept": 0, "reject": 0}
@@ -167,12 +167,12 @@ def run(chk):
                     stats["accept" if r["ok"] else "reject"] += 1
             for r in rows[:1] + rows[len(rows) // 2: len(rows) // 2 + 1]:
                 chk.sample({"job": tag, "event": {k: v for k, v in r.items() if k not in ("orig", "dec")}})
-            n = validate(chk, "trace-" + tag, rows, hdr, chunk=2500 if quick else 6000, max_workers=3)
+            n = validate(chk, "trace-" + tag, rows, hdr, chunk=2500 if quick else 6000, max_workers=2)
             stats["lines"] += n
             return n
         return fn
     tasks += [("rv:" + tag, rv(tag, args)) for tag, args in jobs]
-    res = vlib.parallel(tasks, max_workers=6 if quick else 5)
+    res = vlib.parallel(tasks, max_workers=int(os.environ.get("C08_PAR", "5" if quick else "4")))
     for m, c in mcs:
         r = res["mc:" + c]
         chk.add_mc(m + "/" + c, r)
